@@ -22,6 +22,12 @@ func level(prop string) string {
 }
 
 var ruleOf = map[string]string{
+	"E2-varexp": "each run = one tape: a root config whose settings are generated expression trees / primitives / containers, 0..2 Env configs, 0..3 resolvers; then 1..6 (thorough 12) reads through drawn entry points with per-read resolver outages / empty answers and drift (merge, remove, Env and store changes) between reads, each compared with the expression model. Non-trivial: >= 2 state-changing operations (setup counts as one; drift steps) or >= 1 injected fault fired (outage, empty answer, unresolvable / cyclic / operator-error read); distinct = distinct hash of the complete choice sequence",
+	"E3-unpack": "each run = one case: a generated struct type (34 field kinds), a pre-fill, a config mentioning a drawn subset of fields (optionally produced by a history), then the fault-free Unpack and EVERY fault point of the case once: each callback invocation returning an error, each consumed setting corrupted once per applicable kind. Non-trivial: every case executes >= 2 operations and its fault points; distinct = distinct hash of the choice sequence (type + pre-fill + config + history)",
+	"E4-order": "each run = one case (NewFrom / Merge on trees with nested, dotted and partly-dotted spellings; Unpack / FlattenedKeys / CompareConfigs / NewFrom on configs with references; typed Unpack fault-free or with one corrupted setting) executed under K schedules (sorted, reversed, K-2 tape-drawn) from identical initial states. Non-trivial: every case; distinct = distinct hash of the choice sequence incl. the drawn permutations",
+	"E5-conc": "each run = one tape: a shared config, 2..4 reader tasks with 1..3 reads each and options of their own, a preemption plan of <= 4 (task, function-entry index) points, and every release decision. Serialized pass inside a synctest bubble + free-running pass under -race. Non-trivial: every run (>= 2 tasks); distinct = distinct hash of the choice sequence; distinct_schedules = distinct release sequences (task, step) of the serialized pass",
+	"E6-flags": "each run = one tape: a flag (key=value or file flavour, option set, default config or not, sometimes registered in a flag.FlagSet) and a history of 1..8 (thorough 14) Set calls with malformed arguments and loader faults at any position. Non-trivial: >= 2 accepted arguments or >= 1 fault; distinct = distinct hash of the choice sequence",
+	"hostile arguments (E1/E2/E3/E6 surfaces) + E5 lexer schedules": "phase 1: each run = one tape drawing a family (accessors with hostile name/index pairs inside a history, hostile keys, odd Unpack targets / Merge sources, splice soups under VarExp, value soups under every parse.Config and as flag arguments, byte soups to the three loaders); phase 2: one splice string from a grammar incl. malformed shapes evaluated under a tape-chosen lexer/parser schedule at every channel operation. Non-trivial: every run (each injects >= 1 hostile argument); distinct = distinct hash of the choice sequence",
 	"E1-world": "each run = one tape drawn from splitmix64(hash(VERIF_SEED, property, run index)); the tape draws the run's configuration vector (separator, depth/width bounds, pool size, enumeration-order policy, nil/empty values) and then a history of operations (create / merge / set / set-child / remove / child / reads / illegal addresses) over a pool of aliased configs, checked against the reference tree after every step. A run is non-trivial if it executed >= 2 state-changing operations or >= 1 injected fault fired; distinct = distinct hash of the complete choice sequence (counted exactly, union over workers)",
 }
 
@@ -156,8 +162,18 @@ func stubsOf(prop string) []string {
 	switch engineOf(prop) {
 	case "E1-world":
 		return []string{"the callers: a simulated application holding several aliased handles and issuing the generated history", "input values (Go maps, slices, structs, configs) rendered from generated abstract trees"}
+	case "E2-varexp":
+		return []string{"resolvers (simulated stores with per-read outages and empty answers)", "Env configs' contents and their drift", "the caller issuing reads and merges"}
+	case "E3-unpack":
+		return []string{"the user code attached to target types: Validate / Unpack / InitDefaults methods and the registered 'simcheck' tag validator (fail on command of the simulator)", "target types and pre-filled values"}
+	case "E4-order":
+		return []string{"the runtime's choice of map enumeration order (owned by the simulator at all rewritten sites)", "resolvers, Env configs (as E2)", "callbacks of target types (as E3)"}
+	case "E5-conc":
+		return []string{"the goroutine scheduler for reader tasks (serialized pass: park/release by tape; free-running pass: the real scheduler, uncontrolled)", "per-task resolvers", "the reader tasks"}
+	case "E6-flags":
+		return []string{"FileLoaders and the file table they serve (I/O errors, nil configs, unknown files)", "the command line (sequence of Set calls / FlagSet.Parse)"}
 	}
-	return []string{"simulated environment (see DESIGN.md 4.2)"}
+	return []string{"callers passing hostile arguments", "phase 2: the goroutine scheduler between the splice lexer and its parser (park/release by tape at every channel operation)"}
 }
 
 func toolchainOf(prop string) string {
